@@ -14,12 +14,22 @@
 //!   iotmo    a socket read that times out
 //!   cio      cancelled while it is blocked in a socket read
 //!   cdrop    cancelled while parked; a guard on its stack makes blocking calls while the Cancel unwinds
+//!   dpanic   DETACHED (its JoinHandle is dropped before it runs on) and panics: nobody takes the payload over
+//!   iorace   a socket read with a 1 ms timeout whose data is sent at exactly the virtual instant of the timeout,
+//!            then A ends without another blocking call (whatever the io timer left in the result slot must have
+//!            been consumed by this read)
+//!   iorace2  like iorace, then A goes on: its own NEXT blocking call (a read with a 10 s timeout answered after
+//!            1 ms, or a park(10 s) unparked after 1 ms) must not report the timeout of the read before
+//!   (dpanic / iorace / iorace2 are not drawn by `mix`, they are asked for by name)
 //! then the new occupant B makes its FIRST blocking call (MAYV_FIRST, `mix` = drawn per round)
 //!   park     Blocker::park(10 s), unparked by a thread after 1 ms
 //!   sleep    sleep(2 ms)
 //!   recv     mpsc recv, a thread sends after 1 ms          recvt  recv_timeout(10 s), likewise
 //!   sem      Semphore::wait_timeout(10 s), posted after 1 ms
 //!   io       UDP recv with a read timeout of 10 s, a datagram is sent after 1 ms
+//!   cancel   (by name only) park(None), CANCELLED after 1 ms and joined: the join must report the cancellation
+//!            (generator::Error::Cancel), not a panic payload that an earlier occupant left in the pooled generator
+//!            (C13: the payload of a panic stays with the coroutine that panicked; C15: nothing is inherited)
 //!
 //! Oracles on the implementation:
 //!  * B's first blocking call is neither Timeout nor Canceled nor early: it returns the event, not before 1 ms
@@ -190,14 +200,17 @@ fn main() {
         may::config().set_pool_capacity(1);
         let fates = ["fin", "tmo", "panic", "cpark", "race", "cshort", "waitio", "cwaitio", "iotmo", "cio", "cdrop", "urace", "cpd"];
         let firsts = ["park", "sleep", "recv", "recvt", "sem", "io"];
+        // asked for by name only (the draws of `mix` stay what they were)
+        let fates_named = ["dpanic", "iorace", "iorace2"];
+        let firsts_named = ["cancel"];
         // the main thread's fallback values
         touch_locals(MAIN, "main thread");
         let mut owner = 0usize;
         let mut last_stack = 0usize;
         let mut reuse = 0;
         for round in 0..rounds {
-            let fate: &'static str = if prev == "mix" { fates[(ctx.rand() % fates.len() as u64) as usize] } else { fates.iter().copied().find(|f| *f == prev).expect("MAYV_PREV") };
-            let fst: &'static str = if first == "mix" { firsts[(ctx.rand() % firsts.len() as u64) as usize] } else { firsts.iter().copied().find(|f| *f == first).expect("MAYV_FIRST") };
+            let fate: &'static str = if prev == "mix" { fates[(ctx.rand() % fates.len() as u64) as usize] } else { fates.iter().chain(fates_named.iter()).copied().find(|f| *f == prev).expect("MAYV_PREV") };
+            let fst: &'static str = if first == "mix" { firsts[(ctx.rand() % firsts.len() as u64) as usize] } else { firsts.iter().chain(firsts_named.iter()).copied().find(|f| *f == first).expect("MAYV_FIRST") };
             let sub = ctx.rand();
 
             // ---------------------------------------------------------------- previous occupant A
@@ -313,6 +326,45 @@ fn main() {
                                 x => c.fail(format!("{who}: read with a 1 ms timeout and no data returned {x:?}")),
                             }
                         }
+                        "dpanic" => {
+                            // main drops the JoinHandle first: this coroutine is detached when it panics
+                            spin_until(&r, 1);
+                            may::coroutine::sleep(Duration::from_micros(200));
+                            panic!("boom of the DETACHED previous occupant");
+                        }
+                        "iorace" | "iorace2" => {
+                            sb.set_read_timeout(Some(Duration::from_millis(1))).unwrap();
+                            let mut buf = [0u8; 8];
+                            r.t_park.store(c.now(), SeqCst);
+                            r.stage.store(1, SeqCst);
+                            // the datagram is sent at the instant of the timeout: either outcome is fine
+                            match sb.recv(&mut buf) {
+                                Ok(3) => {}
+                                Err(e) if e.kind() == std::io::ErrorKind::TimedOut => {}
+                                x => c.fail(format!("{who}: read with a 1 ms timeout and a datagram sent at 1 ms returned {x:?}")),
+                            }
+                            if fate == "iorace2" {
+                                // A's own next blocking call: the event comes 1 ms after stage 2, the timeout is 10 s
+                                let t0 = c.now();
+                                if sub & 2 == 0 {
+                                    sb.set_read_timeout(Some(Duration::from_secs(10))).unwrap();
+                                    r.stage.store(2, SeqCst);
+                                    match sb.recv(&mut buf) {
+                                        Ok(3) => {}
+                                        x => c.fail(format!("{who}: the NEXT read (timeout 10 s, answered after 1 ms) returned {x:?} after {} ns: the stale timeout of the read before", c.now() - t0)),
+                                    }
+                                } else {
+                                    let b = may::sync::Blocker::current();
+                                    *r.blocker.lock().unwrap() = Some(b.clone());
+                                    r.stage.store(2, SeqCst);
+                                    match b.park(Some(Duration::from_secs(10))) {
+                                        Ok(()) => {}
+                                        x => c.fail(format!("{who}: the NEXT blocking call park(10 s), unparked after 1 ms, returned {x:?} after {} ns: the stale timeout of the read before", c.now() - t0)),
+                                    }
+                                }
+                                check_locals_kept(a, &who);
+                            }
+                        }
                         "cio" => {
                             sb.set_read_timeout(Some(Duration::from_secs(10))).unwrap();
                             let mut buf = [0u8; 8];
@@ -324,8 +376,55 @@ fn main() {
                     }
                 })
             };
+            let mut ha = Some(ha);
             // main: deliver the cancel the fate asks for
             let exp = match fate {
+                "dpanic" => {
+                    // detach it, then let it panic; nobody can join it: wait for the end of its body
+                    drop(ha.take());
+                    r.stage.store(1, SeqCst);
+                    while ALIVE[a].load(SeqCst) != 0 {
+                        ctx.yield_now();
+                    }
+                    Exp::Any
+                }
+                "iorace" | "iorace2" => {
+                    while r.stage.load(SeqCst) != 1 {
+                        ctx.yield_now();
+                    }
+                    // the scheduler wakes ONE of the threads whose deadlines are equal and lets it run on alone, so a
+                    // sleep until the instant of the timeout never interleaves with the timer handler (only a stall of
+                    // the handler's thread does: directed runs, 150 us later lands inside a 300 us stall).  Polling for
+                    // the instant does: the clock then jumps to the timer's deadline while this thread stays runnable
+                    let mode = sub >> 4 & 3;
+                    let due = r.t_park.load(SeqCst) + 1_000_000 + [0u64, 150_000, 0, 0][mode as usize];
+                    if mode < 2 {
+                        let now = ctx.now();
+                        if due > now {
+                            ctx.sleep_ns(due - now);
+                        }
+                    } else {
+                        while ctx.now() < due {
+                            ctx.yield_now();
+                        }
+                    }
+                    for _ in 0..(sub >> 8) % 12 {
+                        ctx.point();
+                    }
+                    sa.send(b"abc").unwrap();
+                    if fate == "iorace2" {
+                        while r.stage.load(SeqCst) != 2 {
+                            ctx.yield_now();
+                        }
+                        ctx.sleep_ns(1_000_000);
+                        if sub & 2 == 0 {
+                            sa.send(b"xyz").unwrap();
+                        } else {
+                            r.blocker.lock().unwrap().take().unwrap().unpark();
+                        }
+                    }
+                    Exp::Ok
+                }
                 "fin" | "tmo" | "iotmo" => Exp::Ok,
                 "panic" => Exp::Panic,
                 "cpark" | "cdrop" | "cio" => {
@@ -336,7 +435,7 @@ fn main() {
                     for _ in 0..(sub >> 8) % 30 {
                         ctx.point();
                     }
-                    unsafe { ha.coroutine().cancel() };
+                    unsafe { ha.as_ref().unwrap().coroutine().cancel() };
                     Exp::Cancel
                 }
                 "race" => {
@@ -348,7 +447,7 @@ fn main() {
                     if due > now {
                         ctx.sleep_ns(due - now);
                     }
-                    unsafe { ha.coroutine().cancel() };
+                    unsafe { ha.as_ref().unwrap().coroutine().cancel() };
                     Exp::Any
                 }
                 "urace" => {
@@ -372,7 +471,7 @@ fn main() {
                     while r.stage.load(SeqCst) != 1 {
                         ctx.yield_now();
                     }
-                    unsafe { ha.coroutine().cancel() };
+                    unsafe { ha.as_ref().unwrap().coroutine().cancel() };
                     r.stage.store(2, SeqCst);
                     Exp::Panic
                 }
@@ -380,7 +479,7 @@ fn main() {
                     while r.stage.load(SeqCst) != 1 {
                         ctx.yield_now();
                     }
-                    unsafe { ha.coroutine().cancel() };
+                    unsafe { ha.as_ref().unwrap().coroutine().cancel() };
                     r.stage.store(2, SeqCst);
                     if fate == "waitio" { Exp::Ok } else { Exp::Cancel }
                 }
@@ -389,13 +488,17 @@ fn main() {
                         ctx.yield_now();
                     }
                     ctx.sleep_ns(300_000);
-                    unsafe { ha.coroutine().cancel() };
+                    unsafe { ha.as_ref().unwrap().coroutine().cancel() };
                     Exp::Ok
                 }
                 _ => unreachable!(),
             };
-            let res = ha.join();
+            let res = match ha.take() {
+                Some(h) => h.join(),
+                None => Ok(()),
+            };
             let got = match &res {
+                Ok(()) if fate == "dpanic" => Exp::Any,
                 Ok(()) => Exp::Ok,
                 Err(e) => {
                     if e.downcast_ref::<&str>().map(|s| *s == "boom").unwrap_or(false) {
@@ -468,6 +571,12 @@ fn main() {
                                 Err("Timeout".into())
                             }
                         }
+                        "cancel" => {
+                            let blk = may::sync::Blocker::current();
+                            r.stage.store(10, SeqCst);
+                            let x = blk.park(None);
+                            Err(format!("cancelled park returned {x:?} instead of unwinding"))
+                        }
                         "io" => {
                             ub.set_read_timeout(Some(Duration::from_secs(10))).unwrap();
                             let mut buf = [0u8; 8];
@@ -500,12 +609,20 @@ fn main() {
                     "park" => rb.blocker.lock().unwrap().take().unwrap().unpark(),
                     "recv" | "recvt" => tx.send(1).unwrap(),
                     "sem" => sem.post(),
+                    "cancel" => unsafe { hb.coroutine().cancel() },
                     _ => {
                         ua.send(b"abc").unwrap();
                     }
                 }
             }
             match hb.join() {
+                Ok(()) if fst == "cancel" => ctx.fail(format!("new occupant {b} (after {fate}) was cancelled while parked but its join reports a normal end")),
+                Err(e) if fst == "cancel" => {
+                    // the oracle of C13 (i) / C15: the join of a cancelled coroutine reports the cancellation
+                    if let Some(what) = e.downcast_ref::<&str>().map(|s| s.to_string()).or_else(|| e.downcast_ref::<String>().cloned()) {
+                        ctx.fail(format!("C13/C15 stale panic payload: the new occupant of the stack (after {fate}) was cancelled while parked, its join must report Error::Cancel but reports the panic payload {what:?} of somebody else (left in the pooled generator by an earlier occupant of the stack)"));
+                    }
+                }
                 Ok(()) => {}
                 Err(e) => {
                     let what = e.downcast_ref::<&str>().map(|s| s.to_string()).or_else(|| e.downcast_ref::<String>().cloned()).unwrap_or_else(|| "Cancel".into());
